@@ -40,6 +40,14 @@ fn bits(p: f64) -> u64 {
     if p.is_nan() { 0x7FF8000000000000 } else { p.to_bits() }
 }
 
+/// the counter of one fault id, whatever map type the statistics keep their counters in
+pub fn count_of<'a, M>(m: &'a M, id: &str) -> u64
+where
+    &'a M: IntoIterator<Item = (&'a String, &'a u64)>,
+{
+    m.into_iter().find(|(k, _)| k.as_str() == id).map(|(_, n)| *n).unwrap_or(0)
+}
+
 fn tf(b: bool) -> String {
     if b { "t".into() } else { "f".into() }
 }
@@ -62,8 +70,11 @@ impl BugState {
         format!("?{}", id)
     }
 
-    fn dump_map(&self, m: &std::collections::HashMap<String, u64>) -> String {
-        let mut v: Vec<(u64, String)> = m.iter().map(|(k, n)| {
+    fn dump_map<'a, M>(&self, m: &'a M) -> String
+    where
+        &'a M: IntoIterator<Item = (&'a String, &'a u64)>,
+    {
+        let mut v: Vec<(u64, String)> = m.into_iter().map(|(k, n)| {
             let c = self.code_of(k);
             (c.parse::<u64>().unwrap_or(u64::MAX), format!("{}:{}", c, n))
         }).collect();
@@ -171,8 +182,7 @@ impl BugState {
                     }
                 };
                 let after = buggify::get_stats();
-                let d = |m: &std::collections::HashMap<String, u64>| m.get(&id).copied().unwrap_or(0);
-                if d(&after.checks) != d(&before.checks) + 1 || d(&after.triggers) != d(&before.triggers) + res as u64 {
+                if count_of(&after.checks, &id) != count_of(&before.checks, &id) + 1 || count_of(&after.triggers, &id) != count_of(&before.triggers, &id) + res as u64 {
                     complaints.push(("C20:buggify:stats-inconsistent".into(), t.join(" ")));
                 }
                 tf(res)
